@@ -43,8 +43,8 @@ func CheckC14(tier string) int {
 	periods := []uint64{1, 2, 3600, 1209600}
 	subs := []int64{0, 1, 999999999}
 	if tier == "thorough" {
-		periods = append(periods, 5, 60, 86400, 31536000)
-		subs = append(subs, 500000000, 999999998)
+		periods = append(periods, 4, 5, 59, 60, 61, 86400, 31536000, 1<<31, 1<<32)
+		subs = append(subs, 2, 500000000, 999999998)
 	}
 	T := time.Date(2022, 5, 6, 7, 8, 9, 0, time.UTC)
 	for _, kind := range []string{"tendermint", "bsc", "eth"} {
